@@ -73,7 +73,7 @@ func targetMethod(r *rand.Rand, p *synth.Project, withBody, withForm bool) synth
 	return m
 }
 
-var PerturbationIDs = []string{"P0", "P1", "P2", "P3", "P3b", "P4", "P5", "P6", "P7", "P8q", "P8h", "P8b", "P8f", "P9", "P10", "P11s", "P11m", "P11t", "P12", "P13a", "P13b", "P14a", "P14b", "P15", "P16", "P17", "P18", "P20", "P21", "PC1", "PC2", "PC3", "PC4"}
+var PerturbationIDs = []string{"P0", "P1", "P2", "P3", "P3b", "P3c", "P22", "P22d", "P15d", "P16d", "P18d", "P6d", "P4", "P5", "P6", "P7", "P8q", "P8h", "P8b", "P8f", "P9", "P10", "P11s", "P11m", "P11t", "P12", "P13a", "P13b", "P14a", "P14b", "P15", "P16", "P17", "P18", "P20", "P21", "PC1", "PC2", "PC3", "PC4"}
 
 func paramIdx(m *synth.Method, name string) int {
 	for i, p := range m.Params {
@@ -92,7 +92,7 @@ func ApplyPerturbation(p *synth.Project, id string, r *rand.Rand) *Perturbation 
 	withForm := id == "P8f"
 	m := targetMethod(r, p, withBody, withForm)
 	// a parameterised controller prefix must be bound by every method
-	if strings.Contains(c.Route, "{tenant}") && id != "P3b" {
+	if strings.Contains(c.Route, "{tenant}") && id != "P3b" && id != "P3c" {
 		m.Params = append(m.Params, synth.Param{GoName: "tenant", Type: synth.Prim("string"), In: "path"})
 	}
 	key := "m/" + c.Name + ".Target"
@@ -131,6 +131,48 @@ func ApplyPerturbation(p *synth.Project, id string, r *rand.Rand) *Perturbation 
 				}
 			}
 		}
+	case "P3c":
+		pt.Rule, pt.Expect = "{x} in the controller route, a method with no URL parameter and no @Path of its own", "reject"
+		if !strings.Contains(c.Route, "{tenant}") {
+			c.Route = "/{tenant}" + c.Route
+			for mi := range c.Methods {
+				if c.Methods[mi].IsEndpoint() {
+					c.Methods[mi].Params = append(c.Methods[mi].Params, synth.Param{GoName: "tenant", Type: synth.Prim("string"), In: "path"})
+				}
+			}
+		}
+		var keep []synth.Param
+		for _, pr := range m.Params {
+			if pr.In != "path" {
+				keep = append(keep, pr)
+			}
+		}
+		m.Params = keep
+		m.Route = "/target"
+	case "P22", "P22d":
+		pt.Rule, pt.Expect = "one parameter referenced by two annotations (@Query(q) and @Header(q))", "reject"
+		if id == "P22d" {
+			pt.Rule += " where the first carries an unknown property (warning-level)"
+			m.DropAnn = append(m.DropAnn, "Query:q")
+			m.ExtraAnn = append(m.ExtraAnn, "// @Query(q, { example: 'abc' })")
+		}
+		m.ExtraAnn = append(m.ExtraAnn, "// @Header(q)")
+	case "P15d":
+		pt.Rule, pt.Expect = "unsupported verb on a @Method that also carries an unknown property (warning-level)", "reject"
+		m.Verb = []string{"HEAD", "OPTIONS", "TRACE", "CONNECT"}[r.Intn(4)]
+		m.DropAnn = append(m.DropAnn, "Method")
+		m.ExtraAnn = append(m.ExtraAnn, "// @Method("+m.Verb+", { idempotent: true })")
+	case "P16d":
+		pt.Rule, pt.Expect = "invalid verb on a @Method that also carries an unknown property (warning-level)", "reject"
+		m.Verb = []string{"FETCH", "get"}[r.Intn(2)]
+		m.DropAnn = append(m.DropAnn, "Method")
+		m.ExtraAnn = append(m.ExtraAnn, "// @Method("+m.Verb+", { note: 'x' })")
+	case "P18d":
+		pt.Rule, pt.Expect, pt.Listed = "@Response(abc) with an unknown property", "reject", false
+		m.ExtraAnn = append(m.ExtraAnn, "// @Response(abc, { x: 1 })")
+	case "P6d":
+		pt.Rule, pt.Expect = "a second @Path(x) carrying an unknown property (warning-level)", "reject"
+		m.ExtraAnn = append(m.ExtraAnn, "// @Path("+pathName+", { example: 1 })")
 	case "P4":
 		pt.Rule, pt.Expect = "@Path(x,{name:\"y\"}) while the template has {x}", "reject"
 		i := paramIdx(&m, pathName)
